@@ -202,6 +202,12 @@ def check_file(case):
         # a second, unrelated alias in the same directory: answers must not leak between aliases
         with open(os.path.join(d, 'other.bc'), 'w') as f:
             f.write('1\tTTT\n2\tGGG\n')
+        # a third alias with the SAME barcode set, other cell indices, other order: nothing may be shared between aliases
+        twin_idx = [f'well{j}' for j in range(len(wl))]
+        with open(os.path.join(d, 'aaa_twin.bc'), 'w') as f:
+            for b, ix in zip(reversed(wl), twin_idx):
+                f.write(f'{ix}\t{b}\n')
+        twin_wl = tuple(reversed(wl))
         lazy = {'eager': None, 'lazy_star': '*', 'lazy_alias': ['mylist']}[case['load']]
         try:
             bp = BarcodeParser(barcodeDirectory=d, hammingDistanceExpansion=case['k'], lazyLoad=lazy)
@@ -221,8 +227,13 @@ def check_file(case):
             return [(f'file:{layout}:accessor-exception:{type(ex).__name__}', repr(ex))], (0, 0, 0)
         q_arr, q_strs = all_strings(3)
         site = f'file:{layout}' + ('' if pre == 'none' else f':after-{pre}')
-        return compare(lambda s: bp.getIndexCorrectedBarcodeAndHammingDistance(s, 'mylist'), wl, want_idx, case['k'],
-                       q_arr, q_strs, site=site)
+        v1, st1 = compare(lambda s: bp.getIndexCorrectedBarcodeAndHammingDistance(s, 'mylist'), wl, want_idx, case['k'],
+                          q_arr, q_strs, site=site)
+        v2, st2 = compare(lambda s: bp.getIndexCorrectedBarcodeAndHammingDistance(s, 'aaa_twin'), twin_wl, twin_idx, case['k'],
+                          q_arr, q_strs, site=f'file:{layout}:twin-alias-with-same-barcodes')
+        v3, _ = compare(lambda s: bp.getIndexCorrectedBarcodeAndHammingDistance(s, 'mylist'), wl, want_idx, case['k'],
+                        q_arr, q_strs, site=site + ':after-twin-lookups')
+        return v1 + v2 + v3, (st1[0] + st2[0], st1[1], st1[2])
     finally:
         shutil.rmtree(d, ignore_errors=True)
 
@@ -270,7 +281,13 @@ _SHIPPED_PARSERS = {}
 def check_shipped(case):
     from singlecellmultiomics.barcodeFileParser.barcodeFileParser import BarcodeParser
     sub, alias, k, lo, hi = case['dir'], case['alias'], case['k'], case['lo'], case['hi']
-    key = (sub, alias, k)
+    key = (sub, alias, k) if not case.get('eager_dir') else (sub, '*eager*', k)
+    if key not in _SHIPPED_PARSERS and case.get('eager_dir'):
+        _SHIPPED_PARSERS.clear()
+        import singlecellmultiomics.modularDemultiplexer as md
+        # the way demux.py builds its index parser: EVERY list of the directory loaded and expanded in one parser
+        _SHIPPED_PARSERS[key] = BarcodeParser(barcodeDirectory=os.path.join(os.path.dirname(md.__file__), sub),
+                                              hammingDistanceExpansion=k)
     if key not in _SHIPPED_PARSERS:
         _SHIPPED_PARSERS.clear()
         # the real constructor on the real directory; every other alias stays pending (lazy)
@@ -294,7 +311,7 @@ def check_shipped(case):
     lut = np.array(list(ALPHA))
     q_strs = [''.join(r) for r in lut[q_arr]]
     return compare(lambda s: bp.getIndexCorrectedBarcodeAndHammingDistance(s, alias), tuple(wl), idx, k, q_arr, q_strs,
-                   site='shipped')
+                   site='shipped' + (':whole-directory-parser' if case.get('eager_dir') else ''))
 
 
 # ------------------------------------------------------------------ engine interface
@@ -318,6 +335,8 @@ def shards(tier):
     for li in range(len(LAYOUTS)):
         for gz in (False, True):
             out.append(('file', li, gz))
+    # one parser holding the whole indices/ directory (k=1, as the command line default): one shard, aliases in sequence
+    out.append(('shipped-eager', 'indices', 1))
     if tier == 'quick':
         out.append(('shipped', 'barcodes', 'illumina_RP_indices', 0, 0, 5 ** 6))
         out.append(('shipped', 'barcodes', 'illumina_RP_indices', 1, 0, 5 ** 6))
@@ -363,6 +382,18 @@ def run_shard(shard, tier, acc):
                 continue
             viols, (nq, ncorr, ntie) = check_file(case)
             acc.case(case, transitions=nq, nontrivial=(ncorr > 0), outcome=f"file:{case['layout']}:{case['pre']}")
+            for sig, d in viols:
+                acc.violation(sig, case, d)
+    elif kind == 'shipped-eager':
+        _, sub, k = shard
+        for sub_, alias, wl, idx in shipped_lists():
+            if sub_ != sub or len(wl[0]) > 8:
+                continue
+            L = len(wl[0])
+            case = {'kind': 'shipped', 'dir': sub, 'alias': alias, 'k': k, 'lo': 0, 'hi': 5 ** L, 'eager_dir': True}
+            viols, (nq, ncorr, ntie) = check_shipped(case)
+            acc.case(case, transitions=nq, nontrivial=(ncorr > 0), outcome=f'shipped-eager:{alias}:k={k}')
+            acc.count('shipped_queries', nq)
             for sig, d in viols:
                 acc.violation(sig, case, d)
     elif kind == 'shipped':
